@@ -1,6 +1,7 @@
 import RpgpModel.Bytes
 import RpgpModel.Stream
 import RpgpModel.Canon
+import RpgpModel.Framing
 import RpgpModel.Gen.Constants
 /-!
 # Driver — `rpgp_model`: one request line in, one canonical answer line out.
@@ -32,6 +33,49 @@ def Args.list (a : Args) (k : String) : Option (List Bytes) := a.get? k >>= pars
 def okBytes (b : Bytes) : String := "ok:" ++ hexOrDash b
 def okBool (b : Bool) : String := if b then "ok:1" else "ok:0"
 
+def parseNatList (s : String) : Option (List Nat) :=
+  if s = "-" then some [] else (s.splitOn ",").mapM String.toNat?
+
+/-- `seed:len` test pattern -/
+def Args.pat (a : Args) (k : String) : Option Bytes := do
+  let v ← a.get? k
+  match v.splitOn ":" with
+  | [s, n] => pure (pattern (← s.toNat?) (← n.toNat?))
+  | _ => none
+
+def showCk (b : Bytes) : String :=
+  let (n, x, y) := cksum b
+  s!"{n}.{x}.{y}"
+
+def showDeframe (r : Except FrErr (Hdr × Bytes × Bytes)) : String :=
+  match r with
+  | .error .eof => "none"
+  | .error .bad => "err"
+  | .ok (h, b, rest) =>
+    let kind := match h.len with
+      | .fixed n => s!"f{n}"
+      | .part n => s!"p{n}"
+      | .indet => "i"
+    s!"ok:{if h.newFormat then 1 else 0}:{h.tag}:{kind}:{showCk b}:{showCk rest}"
+
+def handleFrame (a : Args) : Option String := do
+  let fmt ← a.nat "fmt"
+  let tag ← a.nat "tag"
+  let kind ← a.get? "kind"
+  let body ← a.pat "body"
+  let restLen ← a.nat "rest"
+  let trunc ← a.nat "trunc"
+  let seed ← (do let v ← a.get? "body"; (v.splitOn ":").head? >>= String.toNat?)
+  let rest := pattern (seed + 1) restLen
+  let framed ← match kind with
+    | "fixed" => do frameFixedAs (fmt == 1) tag (← a.nat "form") body
+    | "indet" => some ((128 + tag * 4 + 3).toUInt8 :: body)
+    | "partial" => do framePartial tag (← a.get? "segs" >>= parseNatList) body
+    | _ => none
+  let stream := framed ++ rest
+  let stream := stream.take (stream.length - trunc)
+  pure (showDeframe (deframe stream))
+
 def handle (op : String) (a : Args) : Option String :=
   match op with
   | "canon_hasher" => do
@@ -46,6 +90,16 @@ def handle (op : String) (a : Args) : Option String :=
   | "crlf_accepts" => do
     let cs ← a.list "chunks"
     pure (okBool (crlfCheck cs))
+  | "frame" => handleFrame a
+  | "deframe" => do
+    let d ← a.bytes "data"
+    pure (showDeframe (deframe d))
+  | "emit" => do
+    let tag ← a.nat "tag"
+    let k ← a.nat "k"
+    let hdr ← a.bytes "hdr"
+    let body ← a.pat "body"
+    pure ("ok:" ++ showCk (emitPartial tag k hdr body))
   | _ => none
 
 def answer (line : String) : String :=
